@@ -15,3 +15,74 @@ package ecdsa
 //@ ensures[x] isnil(result1) ==> result0.X == ofint(*r + ((v / 2) % 2) * q)
 //@ modifies nothing
 //@ end
+
+// Sign (SEC 1, 4.1.3). The nonce generator, the base-point multiplication and HashToInt are opaque calls captured at
+// the call site; the signing equation itself is under contract: a signature is returned only if
+//   r = x(P) mod n with P the result of the base-point multiplication called on the drawn nonce k, r != 0,
+//   s = k^-1 (m + r d) mod n, s != 0, with d the integer held by the private key and m the value HashToInt returned
+//   on the message itself (no hash function given) or on the digest that the hash function returned (otherwise),
+// and (r, s) are returned. The recovery id is not under contract here.
+
+//@ func Signature.Bytes
+//@ layer bigint big.Int
+//@ option field fr
+//@ option inline
+//@ end
+
+//@ func PrivateKey.SignForRecover
+//@ option fresh-results
+//@ layer bigint big.Int ring fp.Element
+//@ option field fr
+//@ option split-post
+//@ option nomerge
+//@ option opaque HashToInt ScalarMultiplicationBase nonce randFieldElement
+//@ ghost k = 0
+//@ ghost kp = 0
+//@ ghost px = 0
+//@ ghost m = 0
+//@ ghost onmsg = false
+//@ ghost ondigest = false
+//@ loop 0
+//@ + invariant[outer] true
+//@ loop 1
+//@ + invariant[inner] true
+//@ cut after call randFieldElement #1
+//@ + ghost k = *callresult0
+//@ cut after call ScalarMultiplicationBase #1
+//@ + ghost kp = *callarg1
+//@ + ghost px = callarg0.X
+//@ cut before call HashToInt #1
+//@ + ghost onmsg = same(callarg0, message)
+//@ + ghost ondigest = same(callarg0, resultof_Sum)
+//@ cut after call HashToInt #1
+//@ + ghost m = *callresult
+//@ ensures[results] (isnil(result3) ==> !isnil(result1) && !isnil(result2) && fresh(result1) && fresh(result2)) && (!isnil(result3) ==> isnil(result1) && isnil(result2))
+//@ ensures[range] isnil(result3) ==> 0 < derefor(result1, 0) && derefor(result1, 0) < q && 0 < derefor(result2, 0) && derefor(result2, 0) < q
+//@ ensures[nonce] isnil(result3) ==> kp == k
+//@ ensures[r] isnil(result3) ==> derefor(result1, 0) == bigmod(toint(px), q) && derefor(result1, 0) != 0
+//@ ensures[hashed] isnil(result3) ==> (isnil(hFunc) ==> onmsg) && (!isnil(hFunc) ==> ondigest)
+//@ ensures[s] isnil(result3) ==> derefor(result2, 0) == bigmod(bigmodinv(k, q) * (m + derefor(result1, 0) * be(privKey.scalar[0:sizeFr])), q) && derefor(result2, 0) != 0
+//@ modifies nothing
+//@ end
+
+// Sign returns the bytes of the (r, s) that SignForRecover returned (through the contract above).
+
+//@ func PrivateKey.Sign
+//@ layer bigint big.Int ring fp.Element
+//@ option field fr
+//@ option nomerge
+//@ ghost r0 = 0
+//@ ghost s0 = 0
+//@ ghost ok = false
+//@ ghost rr = 0
+//@ ghost ss = 0
+//@ cut after call SignForRecover #1
+//@ + ghost ok = isnil(callresult3)
+//@ + ghost r0 = derefor(callresult1, 0)
+//@ + ghost s0 = derefor(callresult2, 0)
+//@ cut before call Bytes #1
+//@ + ghost rr = be(callarg0.R)
+//@ + ghost ss = be(callarg0.S)
+//@ ensures[signed] isnil(result1) ==> ok && rr == r0 && ss == s0
+//@ modifies nothing
+//@ end
